@@ -513,7 +513,7 @@ def _wide_inputs(rng, n, rules, coalition=False):
         cands = D.ABC[:nc] if nc <= len(D.ABC) else [chr(65 + i) for i in range(nc)]
         rule = rng.choice(rules)
         m = 1 if rule == "IRV" else rng.randint(1, nc - 1)
-        style = rng.choice(["large", "large", "grain", "equal"])
+        style = rng.choice(["large", "large", "grain", "equal", "ulp"])
         nb = rng.randint(6, 40)
         ballots = []
 
@@ -522,6 +522,8 @@ def _wide_inputs(rng, n, rules, coalition=False):
                 return F(rng.randint(1, 5000))
             if style == "grain":
                 return F(rng.randint(1, 4000), rng.choice([1, 3, 7, 11, 13, 10007, 999983]))       # incl. large prime denominators
+            if style == "ulp":
+                return F(2**53 + rng.choice([0, 1, 1, 2, 3]))   # piles one vote apart above 2^53: distinct tallies that doubles cannot tell apart
             return F(rng.choice([100, 250, 250, 1000]))       # equal piles: ties at election and at elimination
         if coalition:
             S = rng.sample(cands, rng.randint(1, nc - 1))
